@@ -957,6 +957,13 @@ fn emit_fn(
     );
 
     // body
+    if let Some(t) = &ret_ty {
+        if norm(&t.to_token_stream().to_string()).starts_with("Poll<Option<Result<") {
+            rw.try_in_poll_option = true;
+        } else if norm(&t.to_token_stream().to_string()).starts_with("Poll<Result<") {
+            rw.try_in_poll_result = true;
+        }
+    }
     let mut block = func.block.clone();
     rw.visit_block_mut(&mut block);
     if mut_self {
